@@ -229,9 +229,9 @@ def classified : List Reviewed := [
     .unobserved, "", "fills ScopedDeclarations.variables in hash order; no exporter reads its order (scoped_declarations_unobserved)"⟩,
   ⟨"typer/src/typer/scopes.rs", "find_identifier_in_scope", "for:symbols", "b8568009a2af",
     .mapValueVec, "first Type symbol of a Vec in push (= declaration) order", "`symbols` is the Vec stored as a map value"⟩,
-  ⟨"typer/src/typer/scopes.rs", "find_identifier_in_scope", "for:symbols", "ec05d7a8b47b",
-    .mapValueVec, "first non-function symbol of a Vec in push (= declaration) order; overloads are collected in that order (the candidate lists of ambiguity diagnostics)",
-    "`symbols` is the Vec stored as a map value"⟩,
+  ⟨"typer/src/typer/scopes.rs", "find_identifier_in_scope", "for:symbols", "14cdd086984a",
+    .mapValueVec, "first value symbol (cbuffer member, global, enum value, template type / value, constant) of a Vec in push (= declaration) order; functions are collected as overloads in that order (the candidate lists of ambiguity diagnostics); Type / ConstantBuffer / Namespace / EnumScope symbols are skipped; the debug_assert! (a value symbol never follows a gathered overload) has a constant text",
+    "`symbols` is the Vec stored as a map value; body re-read after fix batch 2 (31dddea widens the debug_assert to the skipped symbol kinds, 0523738 turns the unreachable!() of the TemplateValue arm into `return Some(VariableExpression::TemplateValue(id))`)"⟩,
   ⟨"typer/src/typer/scopes.rs", "walk_into_scopes", "for:symbols", "98fd69e2a092",
     .mapValueVec, "assert_eq!(current, step_start): at most one scope symbol per name, walked in push order", "`symbols` is the Vec stored as a map value"⟩]
 
